@@ -26,6 +26,18 @@ type Attack struct {
 	Supplied []int  `json:"supplied,omitempty"`
 	Pos      int    `json:"pos,omitempty"`
 	Byte     int    `json:"byte,omitempty"`
+	// forge: a structurally crafted proof (family Fam, see forge.go) claiming the indexes ClaimedR (+ the padding
+	// bit indexes Pads in the payload) for the supplied messages
+	Fam      string `json:"fam,omitempty"`
+	ClaimedR []int  `json:"claimed,omitempty"`
+	Pads     []int  `json:"pads,omitempty"`
+}
+
+// TrSpec asks for the verifier's challenge input of the honest proof re-encoded with padding bits Pads and Extra
+// supplementary messages.
+type TrSpec struct {
+	Pads  []int `json:"pads,omitempty"`
+	Extra int   `json:"extra,omitempty"`
 }
 
 // Case is one signed vector, one reveal set, one derived proof and the attacks tried on it.
@@ -37,6 +49,7 @@ type Case struct {
 	Key     int      `json:"key"`
 	Attacks []Attack `json:"attacks"`
 	Bytes   bool     `json:"bytes,omitempty"` // hand the proof bytes to the model (layout parse, alterations)
+	Tr      []TrSpec `json:"transcripts,omitempty"`
 }
 
 // Verdict of one verifier call.
@@ -199,6 +212,7 @@ type Obs struct {
 	ProofLen   int      `json:"proof_len"`
 	Verdicts   []string `json:"verdicts"`
 	Intact     bool     `json:"intact"`
+	Transcript [][]int  `json:"transcripts,omitempty"`
 	Details    []string `json:"details,omitempty"`
 }
 
@@ -276,6 +290,37 @@ func runCaseOpt(kind string, c *Case, tr *hx.Trace, withCoq bool) {
 	vs := make([]string, len(c.Attacks))
 	pristine := append([]byte{}, proof...)
 
+	var fg *forger
+
+	needForger := len(c.Tr) > 0
+	for _, a := range c.Attacks {
+		needForger = needForger || a.Kind == "forge"
+	}
+
+	if pp, ok := p.(*primParty); ok && needForger {
+		var ferr error
+
+		fg, ferr = newForger(c, pp, sig)
+		if ferr != nil {
+			fail("forge-setup-error", ferr.Error())
+		}
+	}
+
+	for _, t := range c.Tr {
+		if fg == nil {
+			break
+		}
+
+		l, terr := fg.transcriptLabels(t.Pads, t.Extra)
+		if terr != nil {
+			fail("transcript-error", terr.Error())
+		}
+
+		obs.Transcript = append(obs.Transcript, l)
+	}
+
+	rsorted := sortedCopy(c.R)
+
 	for i, a := range c.Attacks {
 		supplied := revealedIDs
 		pf := proof
@@ -304,6 +349,48 @@ func runCaseOpt(kind string, c *Case, tr *hx.Trace, withCoq bool) {
 		case "key":
 			other = true
 			expect = vReject
+		case "forge":
+			supplied = a.Supplied
+			expect = vReject
+			trueClaim := eqInts(sortedCopy(a.ClaimedR), rsorted) && len(supplied) >= len(revealedIDs) &&
+				eqInts(supplied[:len(revealedIDs)], revealedIDs)
+
+			if a.Fam == "honest-pad" && len(a.Pads) == 0 && trueClaim && len(supplied) == len(revealedIDs) {
+				expect = vAccept
+			}
+
+			if fg == nil {
+				vs[i] = vReject
+				obs.Details = append(obs.Details, "no forger")
+
+				continue
+			}
+
+			fb, ferr := fg.build(&c.Attacks[i])
+			if ferr != nil {
+				fail("forge-build-error", fmt.Sprintf("attack %d (%s): %v", i, a.Fam, ferr))
+				vs[i] = vReject
+				obs.Details = append(obs.Details, ferr.Error())
+
+				continue
+			}
+
+			v, d := fenced(func() error { return p.verifyProof(msgsOf(supplied), fb, nonce, false) })
+			vs[i] = v
+			obs.Details = append(obs.Details, d)
+
+			if v != expect {
+				sg := fmt.Sprintf("forged-%s-%s", a.Fam, v)
+				if v == vAccept && a.Fam == "honest-pad" && trueClaim {
+					// an honest proof with padding bits and dummy messages: the surplus is ignored (known finding)
+					sg = "supplemented-suffix-accept"
+				}
+
+				fail(sg, fmt.Sprintf("attack %d (crafted proof, family %s, claimed indexes %v, padding bits %v, messages %v): expected %s, implementation: %s %s",
+					i, a.Fam, a.ClaimedR, a.Pads, supplied, expect, v, d))
+			}
+
+			continue
 		case "alter":
 			pf = append([]byte{}, proof...)
 			if a.Pos < len(pf) && byte(a.Byte) != 0 {
@@ -365,6 +452,13 @@ func classify(c *Case, o *Obs) (string, bool, []string) {
 		l := a.Kind
 		if a.Label != "" {
 			l += ":" + a.Label
+		}
+
+		if a.Fam != "" {
+			l += ":" + a.Fam
+			if len(a.Pads) > 0 {
+				l += "+pad"
+			}
 		}
 
 		if !kinds[l] {
@@ -440,9 +534,24 @@ func coqAttack(a Attack) string {
 		return "AKey"
 	case "alter":
 		return fmt.Sprintf("(AAlter %s %d)", hx.CoqNat(a.Pos), a.Byte)
+	case "forge":
+		return fmt.Sprintf("(AForge %d %s %s %s)", famCode(a.Fam), coqNatList(sortedCopy(a.ClaimedR)), coqPlainNList(a.Supplied), coqNatList(a.Pads))
 	default:
 		return "AHonest"
 	}
+}
+
+var famNames = []string{"", "surplus", "surplus-vc2", "sim-chosen", "blind-vc2", "blind-both", "honest-pad",
+	"extra-resp-1", "extra-resp-2", "drop-resp-1", "drop-resp-2"}
+
+func famCode(f string) int {
+	for i, n := range famNames {
+		if n == f {
+			return i
+		}
+	}
+
+	return 0
 }
 
 func coqCase(c *Case, o *Obs, proof []byte) string {
@@ -462,8 +571,16 @@ func coqCase(c *Case, o *Obs, proof []byte) string {
 		pb = coqPlainNList(bs)
 	}
 
-	return fmt.Sprintf("{| c_msgs := %s; c_R := %s; c_nonce := %d; c_key := %d; c_payload := %s; c_len := %d; c_proof := %s; c_intact := %s; c_att := %s |}",
-		coqPlainNList(c.Msgs), coqNatList(c.R), c.Nonce, c.Key, coqPlainNList(o.Payload), o.ProofLen, pb, hx.CoqBool(o.Intact), hx.CoqList(att))
+	trs := []string{}
+
+	for i, t := range c.Tr {
+		if i < len(o.Transcript) {
+			trs = append(trs, fmt.Sprintf("(%s, %s, %s)", coqNatList(t.Pads), hx.CoqNat(t.Extra), coqPlainNList(o.Transcript[i])))
+		}
+	}
+
+	return fmt.Sprintf("{| c_msgs := %s; c_R := %s; c_nonce := %d; c_key := %d; c_payload := %s; c_len := %d; c_proof := %s; c_intact := %s; c_tr := %s; c_att := %s |}",
+		coqPlainNList(c.Msgs), coqNatList(c.R), c.Nonce, c.Key, coqPlainNList(o.Payload), o.ProofLen, pb, hx.CoqBool(o.Intact), hx.CoqList(trs), hx.CoqList(att))
 }
 
 // ---------- generators ----------
@@ -535,6 +652,83 @@ func listAttacks(c *Case, r *hx.Rng) []Attack {
 		Attack{Kind: "nonce", Label: "last-byte", Pos: 11}, Attack{Kind: "key"})
 
 	return out
+}
+
+// forgeAttacks: crafted proofs for a changed message and for an additionally "revealed" never-signed message, with
+// and without padding bits in the payload; re-encodings of the honest proof.
+func forgeAttacks(c *Case, r *hx.Rng) ([]Attack, []TrSpec) {
+	n := len(c.Msgs)
+	rs := sortedCopy(c.R)
+	rv := revealedIDs(c)
+	spare := 8*(n/8+1) - n
+	pad1 := []int{n + r.Intn(spare)}
+	fresh := 6000 + r.Intn(500)
+
+	type claim struct {
+		idx []int
+		ids []int
+	}
+
+	changed := claim{idx: rs, ids: append([]int{}, rv...)}
+	changed.ids[r.Intn(len(rv))] = fresh
+	claims := []claim{changed}
+
+	in := map[int]bool{}
+	for _, x := range rs {
+		in[x] = true
+	}
+
+	var hiddenIdx []int
+
+	for i := 0; i < n; i++ {
+		if !in[i] {
+			hiddenIdx = append(hiddenIdx, i)
+		}
+	}
+
+	if len(hiddenIdx) > 0 {
+		x := hiddenIdx[r.Intn(len(hiddenIdx))]
+		ext := claim{idx: sortedCopy(append(append([]int{}, rs...), x))}
+
+		for _, i := range ext.idx {
+			if i == x {
+				ext.ids = append(ext.ids, fresh+1)
+			} else {
+				ext.ids = append(ext.ids, c.Msgs[i])
+			}
+		}
+
+		claims = append(claims, ext)
+	}
+
+	var out []Attack
+
+	for _, fam := range []string{"surplus", "surplus-vc2", "sim-chosen", "blind-vc2", "blind-both", "honest-pad"} {
+		for _, cl := range claims {
+			out = append(out, Attack{Kind: "forge", Fam: fam, ClaimedR: cl.idx, Supplied: cl.ids})
+			out = append(out, Attack{Kind: "forge", Fam: fam, ClaimedR: cl.idx, Supplied: append(append([]int{}, cl.ids...), 7000), Pads: pad1})
+		}
+	}
+
+	// the honest proof re-encoded: as it is, with padding bits and dummy messages, with a response added / removed
+	out = append(out, Attack{Kind: "forge", Fam: "honest-pad", ClaimedR: rs, Supplied: rv})
+	out = append(out, Attack{Kind: "forge", Fam: "honest-pad", ClaimedR: rs, Supplied: append(append([]int{}, rv...), 7000), Pads: pad1})
+	out = append(out, Attack{Kind: "forge", Fam: "honest-pad", ClaimedR: rs, Supplied: append(append([]int{}, rv...), 7000, 7001), Pads: pad1})
+
+	trs := []TrSpec{{}, {Extra: 1}, {Pads: pad1, Extra: 1}, {Pads: pad1, Extra: 2}}
+
+	if spare >= 2 {
+		pad2 := []int{n, n + spare - 1}
+		out = append(out, Attack{Kind: "forge", Fam: "honest-pad", ClaimedR: rs, Supplied: append(append([]int{}, rv...), 7000, 7001), Pads: pad2})
+		out = append(out, Attack{Kind: "forge", Fam: "blind-vc2", ClaimedR: changed.idx, Supplied: append(append([]int{}, changed.ids...), 7000, 7001), Pads: pad2})
+		trs = append(trs, TrSpec{Pads: pad2, Extra: 2})
+	}
+
+	for _, fam := range []string{"extra-resp-1", "extra-resp-2", "drop-resp-1", "drop-resp-2"} {
+		out = append(out, Attack{Kind: "forge", Fam: fam, ClaimedR: rs, Supplied: rv})
+	}
+
+	return out, trs
 }
 
 func hiddenIDs(c *Case) []int {
@@ -886,6 +1080,27 @@ func main() {
 		c.Attacks = append([]Attack{{Kind: "honest"}}, structuralAlters(c)...)
 		c.Attacks = append(c.Attacks, alterAttacks(c, r, 24, false)...)
 		runCase("alter", c, tr)
+	}
+
+	// 7. structurally crafted proofs and the verifier's challenge transcript
+	nForge := 24
+	if thorough {
+		nForge = 300
+	}
+
+	for i := 0; i < nForge; i++ {
+		cnt++
+		r := rng.Fork(cnt)
+		n := 1 + r.Intn(9)
+
+		if i%5 == 4 {
+			n = []int{7, 8, 15, 16, 17, 24, 31}[r.Intn(7)]
+		}
+
+		c := &Case{Level: "prim", Msgs: randomMsgs(r, n), R: randomSubset(r, n), Nonce: r.Intn(4), Key: r.Intn(3)}
+		c.Attacks, c.Tr = forgeAttacks(c, r)
+		c.Attacks = append([]Attack{{Kind: "honest"}}, c.Attacks...)
+		runCase("forge", c, tr)
 	}
 
 	// 6. credential level: generated credentials x reveal frames through GenerateBBSSelectiveDisclosure + ParseCredential
